@@ -457,6 +457,28 @@ func genC08(g *genCtx) {
 		}
 		g.add(&Case{Kind: "eval", Doc: d, Ctx: pickNodeCtx(r, d), Expr: e})
 	}
+	// §3.5: `- - e` is number(e) whatever the type of e (a metamorphic pair on the package alone: the oracle
+	// evaluates the parse tree, so a parser that drops the signs is invisible to it)
+	opnds := []string{"true()", "false()", "'1'", "'abc'", "' 12 '", "''", "a", "//b", "@k", "string(.)", "count(*) > 1", "'1' = '1.0'", "(1 = 1)", "concat('1', '2')"}
+	for i := 0; i < g.scale(1500, 10000); i++ {
+		d := pool[r.intn(len(pool))]
+		ctx := pickNodeCtx(r, d)
+		x := r.pick(opnds)
+		minus := r.pick([]string{"--", "- -", "- - ", "----", "-(-", "- (- "})
+		e1 := minus + x
+		if strings.Contains(minus, "(") {
+			e1 += ")"
+		}
+		e2 := "number(" + x + ")"
+		switch r.intn(3) {
+		case 0:
+			e1, e2 = "string("+e1+")", "string("+e2+")"
+		case 1:
+			y := r.pick([]string{"'1.0'", "'abc'", "1", "true()", "'1'"})
+			e1, e2 = e1+" = "+y, e2+" = "+y
+		}
+		g.add(&Case{Kind: "meta", Doc: d, Ctx: ctx, Expr: e1, Extra: "val;" + ctx.String() + ";" + hx(e2)})
+	}
 }
 
 var strAlpha = []string{"a", "b", "A", " ", "\t", "\n", "1", "-", "."}
@@ -471,7 +493,10 @@ func genStrLit(r *rng) string {
 }
 
 var startLens = []string{"-1 div 0", "0 div 0", "1 div 0", "-7", "-3", "-2", "-1.5", "-1", "-0.5", "0", "0.5", "1", "1.5", "2", "2.5", "3", "3.5", "4", "5", "6", "7", "12",
-	"-9007199254740992", "9007199254740992", "100000000000000000000", "number('x')"}
+	"-9007199254740992", "9007199254740992", "100000000000000000000", "number('x')",
+	// where floor(x + 0.5) is not the closest integer: just below a half, odd integers above 2^52
+	"0.49999999999999994", "1.4999999999999998", "-0.49999999999999994", "0.5000000000000001", "2.4999999999999996",
+	"4503599627370497", "4503599627370495.5", "-4503599627370497"}
 
 // genStrExpr: C09 fragment
 func genStrExpr(r *rng, depth int) string {
@@ -581,6 +606,16 @@ func genC10(g *genCtx) {
 	// unary minus placements
 	for _, e := range []string{"-a", "--a", "---a", "- - a", "-a + -b", "-a * -b", "a - -b", "-a | b", "-(a)", "-1", "- 1 - - 1", "2 - -1", "-a mod -b", "-a div b", "-a or -b", "-a = -b"} {
 		g.add(&Case{Kind: "ast", Expr: e})
+	}
+	for _, e := range []string{"- - a", "- - - a", "- - - - a", "a - - b", "a - - - b", "- a * - - b", "- - a | b", "a or - - b", "- - a = - - b", "a + - - b * c", "- - a div - b"} {
+		g.add(&Case{Kind: "ast", Expr: e, Extra: "chain"})
+	}
+	// a prefix wildcard directly before an operator name / operator symbol / bracket
+	for _, t := range []string{"p:*", "q:*", "p:a", "*"} {
+		for _, op := range []string{"and", "or", "div", "mod", "=", "|", "*", "+"} {
+			g.add(&Case{Kind: "ast", Expr: "//x[" + t + " " + op + " " + t + "]"})
+			g.add(&Case{Kind: "ast", Expr: t + " " + op + " b"})
+		}
 	}
 	// whitespace placements: the same token sequence with different separators must parse alike
 	pool := docPool(r, plainProfile, 4, 1, 20, 10)
@@ -1026,6 +1061,23 @@ func genC14(g *genCtx) {
 			e = genPathPF(r, 2, qn)
 		}
 		g.add(&Case{Kind: kind, Doc: d, Ctx: pickCtx(r, d), NS: ns, NoNS: nons, Expr: e})
+	}
+	// a name test followed by an operator name means what it means between parentheses
+	for i := 0; i < g.scale(1500, 10000); i++ {
+		d := pool[r.intn(len(pool))]
+		ns := maps[2+r.intn(4)]
+		ctx := pickCtx(r, d)
+		t1, t2 := r.pick(qn), r.pick(qn)
+		op := r.pick([]string{"and", "or"})
+		e1 := "//*[" + t1 + " " + op + " " + t2 + "]"
+		e2 := "//*[(" + t1 + ") " + op + " (" + t2 + ")]"
+		if r.chance(1, 3) {
+			e1 = "count(" + t1 + ") " + r.pick([]string{"div", "mod"}) + " 2"
+			e2 = "count((" + t1 + ")) " + e1[len(e1)-5:len(e1)-2] + " 2"
+			g.add(&Case{Kind: "meta", Doc: d, Ctx: ctx, NS: ns, Expr: e1, Extra: "val;" + ctx.String() + ";" + hx(e2)})
+			continue
+		}
+		g.add(&Case{Kind: "meta", Doc: d, Ctx: ctx, NS: ns, Expr: e1, Extra: "set;" + ctx.String() + ";" + hx(e2)})
 	}
 	// compile-only: unbound prefixes must be errors with a map, fine without
 	for _, e := range []string{"p:a", "//q:b/@p:k", "x:a", "a/x:*", "zz:a[1]", "a[zz:b]", "count(zz:a)", "a[zz:b and p:a]", "//*[p:a or zz:b]", "zz:a div 2", "a[zz:b mod 2 = 1]", "p:a and zz:b"} {
